@@ -131,7 +131,11 @@ impl OExec {
             OOp::Add { who, auth, abort } | OOp::Remove { who, auth, abort } => {
                 let add = matches!(op, OOp::Add { .. });
                 let func: &'static str = if add { "add_operator" } else { "remove_operator" };
-                let wi = pi(*who);
+                // 100 + k: the account address carrying the same 32 bytes as operator candidate k
+                let wi = if *who >= 100 { NP + (*who as usize - 100) % 4 } else { pi(*who) };
+                if wi >= NP {
+                    ctx.count("probe.account_twin_of_a_contract_address_named");
+                }
                 let o = self.m.owner;
                 let args: SVec<Val> = (self.p[wi].clone(),).into_val(&env);
                 let alt: SVec<Val> = (self.p[(wi + 1) % NP].clone(),).into_val(&env);
@@ -324,7 +328,7 @@ impl OExec {
 
     pub fn invariants(&mut self, ctx: &mut Ctx) {
         let env = self.sim.env.clone();
-        for i in 0..NP {
+        for i in 0..self.p.len() {
             let q = self.sim.query(&self.ops_c.clone(), "is_operator", (self.p[i].clone(),).into_val(&env));
             let qv = q.val().and_then(|v| bool::try_from(v).ok());
             if !ctx.check(qv == Some(self.m.ops.contains(&i)), &["C17"], "invariant/operator-set-differs", || format!("is_operator(p{}) = {:?}, history says {}", i, qv, self.m.ops.contains(&i))) {
@@ -387,8 +391,8 @@ impl World for WorldO {
             let abort = opt_abort(rng, f_abort, 120);
             let admin = |rng: &mut Rng| if fault { *rng.pick(&[AuthVar::Former, AuthVar::OtherRole, AuthVar::Counterparty, AuthVar::Stranger, AuthVar::Nobody, AuthVar::RightOtherArgs]) } else { AuthVar::Right };
             let op = match rng.weighted(&w) {
-                0 => OOp::Add { who: if rng.chance(1, 8) { 0 } else { rng.range(1, 4) as u8 }, auth: admin(rng), abort },
-                1 => OOp::Remove { who: if rng.chance(1, 8) { *rng.pick(&[0u8, 5, 6]) } else { rng.range(1, 4) as u8 }, auth: admin(rng), abort },
+                0 => OOp::Add { who: if rng.chance(1, 8) { 0 } else if rng.chance(1, 8) { 100 + rng.below(4) as u8 } else { rng.range(1, 4) as u8 }, auth: admin(rng), abort },
+                1 => OOp::Remove { who: if rng.chance(1, 8) { *rng.pick(&[0u8, 5, 6]) } else if rng.chance(1, 8) { 100 + rng.below(4) as u8 } else { rng.range(1, 4) as u8 }, auth: admin(rng), abort },
                 2 => OOp::TransferOwnership { to: rng.below(NP as u64) as u8, auth: admin(rng), abort },
                 3 => {
                     let target = match rng.weighted(&[10, 4, 3, 4, 3, 2, 5, 1, 1]) {
@@ -437,6 +441,11 @@ impl World for WorldO {
             soroban_sdk::token::StellarAssetClient::new(&env, &token).mint(&gas, &(cfg.funds as i128));
         }
         sim.end_setup();
+        let mut p = p;
+        for k in 1..=4usize {
+            let t = crate::host::account_twin(&env, &p[k]);
+            p.push(t);
+        }
         let m = OModel { owner: 0, gas_held: cfg.funds as i128, ..Default::default() };
         let mut ex = OExec { sim, ops_c, target, gas, token, p, m, log: vec![], history: vec![] };
         ex.invariants(ctx);
